@@ -25,4 +25,10 @@ CHECKS = {
     text="For every public way of building a Field/MultiField and every array handle reachable from it or from its source array, every write primitive (item/slice assignment, in-place arithmetic, ufunc out=, copyto, fill, sort, flat, put, place) either is rejected or leaves the field, and the outputs of operators built from it, bit-identical to a private copy taken at construction.",
     note="Handles that aliased the source buffer before construction and deliberate setflags(write=True) are outside the alphabet (no flag can protect them); CPU arrays only.",
     ref="DESIGN.md section 5 (C07)"),
+ "C26": dict(
+    engine="simcomm+case-runner", level="model_checking",
+    technique="explicit-state BFS over save histories on the real sample-list classes (canonical directory state, reference model of the last save), every state loaded with every task count under all rank interleavings; exhaustive value sequences for the statistics",
+    text="All histories of save(kind, n, tasks, overwrite=True) up to the depth on one shared file-name base (plain and residual lists, Field and MultiField samples); in every reached state loading with 1..3(4) tasks under every SimComm interleaving returns exactly the samples of the last save, in order, on the shareRange ranks (contents carry the save version, so stale samples are visible), and overwrite=False refuses without touching files. Statistics: all 780 value sequences (length<=4, 5 values, real and complex) through average/sample_stat on 1..3 tasks and HDF5 export read back with h5py.",
+    note="Simulated communicator; ranks share one directory; numpy's convention for the variance of complex data.",
+    ref="DESIGN.md section 5 (C26)"),
 }
